@@ -178,7 +178,7 @@ def simulate(inp):
                 return None
             closed.discard(st[1])
         elif op == "hold":
-            k, c, m = st[1:]
+            k, c, m = st[1:4]      # an optional fifth element: linger that many milliseconds (harness only)
             if not (0 <= k < len(handles)) or c not in t.parent:
                 return None
             # c is inside its cleanup (a gate at or below it was reached and is still closed), handle k stops an ancestor of c
@@ -233,7 +233,8 @@ KIND = {"poison": 0, "stop": 1, "self": 2, "crash": 3}
 
 
 def step_coq(s):
-    return "%s %s" % (STEP_COQ[s[0]], " ".join(C.cnat(x) for x in s[1:]))
+    args = s[1:4] if s[0] == "hold" else s[1:]
+    return "%s %s" % (STEP_COQ[s[0]], " ".join(C.cnat(x) for x in args))
 
 
 def obs_coq(o):
@@ -280,6 +281,9 @@ def sequential_cases(tree, salt):
     return out
 
 
+linger_left = [0]      # how many more gated scenarios of this run get a long wait (set by generate)
+
+
 def gated_cases(tree, rng, limit):
     """the D11 window (and the windows of D2/D13 around it), held open by a gate"""
     t = T(tree)
@@ -304,7 +308,12 @@ def gated_cases(tree, rng, limit):
                         steps.append(("poison", x))
         steps.append((rng.choice(("poison", "stop")), p))
         hp = sum(1 for s in steps if s[0] in HANDLE_OPS) - 1
-        steps.append(("hold", hp, c, 1 + extra))
+        if linger_left[0] > 0 and v in (0, 1):
+            # the ancestor is left waiting for its stopping child for seconds, not microseconds: nothing may give up
+            linger_left[0] -= 1
+            steps.append(("hold", hp, c, 1 + extra, 2300))
+        else:
+            steps.append(("hold", hp, c, 1 + extra))
         if v in (2, 3):      # while the ancestor waits: pills for it, for the stopping actor, and for the root
             steps += [("poison", p), ("stop", c), ("poison", root)]
         steps.append(("release", g))
@@ -452,6 +461,7 @@ class Tree(Part):
 
     def generate(self, rng, tier):
         cases = []
+        linger_left[0] = 2 if tier == "quick" else 8
         shp = shapes(3, 3)
         for k, s in enumerate(shp):
             tree, _ = number(s)
